@@ -231,7 +231,7 @@ pub fn run_l0(pieces: &[Vec<u8>], opts: Opts, limit: Option<usize>) -> L0Result 
                     break 'outer;
                 }
                 Ok(Ok((n, ev))) => {
-                    if n == 0 && pending.len() == before && matches!(ev, Decoded::Nothing) {
+                    if n == 0 && pending.len() == before && matches!(ev, Decoded::Nothing | Decoded::ImageData | Decoded::PartialChunk(_)) {
                         zero_run += 1;
                         max_zero = max_zero.max(zero_run);
                         if zero_run > 1000 {
